@@ -11,6 +11,8 @@ Scenario (dict):
   calls      list of [api, control] used cyclically
   max_calls  budget
   prior_stream bytes of an earlier connection of the same object (then end of stream); implies via_connect
+  bad_connect_after_timeout  after the first receive timeout the object's connect() is called with a URL that is refused
+  chunk_type   "bytearray" | "memoryview": what the transport's recv() returns (default bytes)
   head_chunk   with via_connect: the response head is handed over at most this many bytes per read
   via_connect  run the real opening handshake over the same transport (head + frames in one flow)
 """
@@ -120,7 +122,13 @@ class FakeSock:
             k = 0
         self.pos += k
         self.log({"ev": "trecv", "req": min(n, 2000000000), "got": k, "pos": p})
-        return self.stream[p:p + k]
+        chunk = self.stream[p:p + k]
+        ct = self.sc.get("chunk_type")          # a transport may hand out any bytes-like object (recv_into wrappers do)
+        if ct == "bytearray":
+            return bytearray(chunk)
+        if ct == "memoryview":
+            return memoryview(bytes(chunk))
+        return chunk
 
     def send(self, data):
         self._tick()
@@ -211,6 +219,7 @@ def run_scenario(sc):
     fake.frame_phase = True
     calls = sc["calls"]
     closed_raises = 0
+    state_bc = {"done": False}
 
     def on_alarm(signum, frame):
         raise Hang()
@@ -249,6 +258,15 @@ def run_scenario(sc):
                 log({"ev": "raise", "cls": type(e).__name__, "doc": isinstance(e, WebSocketException),
                      "terr": e is fake.last_exc, "connected": bool(ws.connected),
                      "sock_none": ws.sock is None, "tclosed": fake.closed, "msg": str(e)[:80]})
+                if sc.get("bad_connect_after_timeout") and type(e).__name__ == "WebSocketTimeoutException" and not state_bc["done"] \
+                        and ws.connected:
+                    # a connect() of the same object that fails before any transport is opened (a URL that is refused)
+                    # leaves the connection that is still up as it was - including what has been read of a frame
+                    state_bc["done"] = True
+                    try:
+                        ws.connect("http://not-a-websocket.test/")
+                    except ValueError:
+                        pass
                 if isinstance(e, WebSocketConnectionClosedException):
                     closed_raises += 1
                     if closed_raises >= 2:
